@@ -16,7 +16,7 @@ CHECKS = {
         pkg="props/c13", level="exploration",
         technique="property-based testing (rapid) + exhaustive small-key enumeration against independent reference partitioners",
         level_text=("Differential against independently written FNV-1a/CRC-32/murmur2 partitioners: every 0..2-byte key x partition counts "
-                    "enumerated, longer keys generated; model-based sequences for RoundRobin and LeastBytes, incl. concurrent callers. Hash / ReferenceHash with a user-supplied Hasher: values chosen directly at the sign boundaries, and stateful hashers (crc32, fnv) over call sequences; LeastBytes in spin-barrier rounds (N simultaneous calls from a balanced state pick N distinct partitions) and with per-partition totals beyond 2^32 bytes. "
+                    "enumerated, longer keys generated; model-based sequences for RoundRobin and LeastBytes, incl. concurrent callers. Hash / ReferenceHash with a user-supplied Hasher: values chosen directly at the sign boundaries, and stateful hashers (crc32, fnv) over call sequences; LeastBytes and RoundRobin in spin-barrier rounds (N simultaneous calls pick what some sequential order of them picks: N distinct partitions from a balanced LeastBytes state, the fixed multiset of the round for RoundRobin) and with per-partition totals beyond 2^32 bytes. "
                     "Exploration is the right level: the domain is unbounded, but the hash functions have no key-length-specific branches beyond length mod 4."),
         level_note="trusts the reference formulas (DESIGN.md A.4) and that Writer offers partitions 0..n-1",
         rule=("cases = (balancer, key, partition count) triples, RoundRobin call sequences and LeastBytes size sequences; "
@@ -60,7 +60,7 @@ CHECKS = {
         level_text=("Every registered API x version x direction: generated field values are encoded by the library and strictly decoded by the "
                     "reference codec (size prefix, header, every field, no trailing bytes; byte-identical for non-flexible versions), "
                     "reference-encoded responses (with unknown tagged fields) are decoded by the library and compared field by field, one frame consumed exactly; "
-                    "library-only round trip; both the default and the `unsafe` build of the protocol package. The hand-written Conn codec: every request-emitting Conn operation (ApiVersions, Brokers, Controller, ReadPartitions, ReadOffset/First/Last, Seek, ReadBatchWith, WriteMessages / WriteCompressedMessages, CreateTopics, DeleteTopics) with generated arguments, client ids (empty, multi-byte, long) and broker version ceilings, and the group APIs through ConsumerGroup: the fake broker decodes each request strictly and the field values are compared with what the operation asked for; fetch responses are compared record by record under chunked delivery; a byte-by-byte sweep puts the second record set of a produce request across the encoder's 64 KiB page boundary. Exploration: values are sampled, (api,version,direction) is covered completely."),
+                    "library-only round trip; both the default and the `unsafe` build of the protocol package. The hand-written Conn codec: every request-emitting Conn operation (ApiVersions, Brokers, Controller, ReadPartitions, ReadOffset/First/Last, Seek, ReadBatchWith, WriteMessages / WriteCompressedMessages, CreateTopics, DeleteTopics) with generated arguments, client ids (empty, multi-byte, long) and broker version ceilings, and the group APIs through ConsumerGroup: the fake broker decodes each request strictly and the field values are compared with what the operation asked for; fetch responses are compared record by record under chunked delivery; for Conn.WriteMessages the key, value, timestamp and headers of every record on the wire are compared with the call's messages; a byte-by-byte sweep puts the second record set of a produce request across the encoder's 64 KiB page boundary. Exploration: values are sampled, (api,version,direction) is covered completely."),
         level_note="trusts the pinned schema table refcodec/schema_table.go (reviewed against the Kafka message definitions; deviations listed in DESIGN.md) and the reference primitives (self-tested in setup)",
         rule=("case = (api, version, direction, generated value tree); rapid draws api and version uniformly from the 40 registered APIs, values from boundary-biased generators "
               "(null/empty/long strings, empty/null/>127-element arrays, int min/max, unknown tags). Non-trivial = at least one field present at that version has a non-default value; "
@@ -133,7 +133,7 @@ CHECKS = {
         technique="property-based testing (rapid) with boundary-size generators; invariant over every produce request seen by the fake broker plus no-further-input flush checks",
         level_text=("Message sizes are generated around the limits (exactly BatchBytes, +-1, exactly filling BatchSize), with invalid calls (oversize message, writer-level and message-level topic mixed or missing) mixed in. "
                     "Every produce request is checked for <= BatchSize records, <= BatchBytes by the pinned size formula and a single topic-partition; rejected calls must leave no trace on the wire; "
-                    "accepted messages must reach the broker without further input (async settle stratum; full-batch stratum with a 10 s timer). Further strata: a steady stream of appends with gaps shorter than BatchTimeout (no message may wait more than BatchTimeout + 700 ms for a healthy, idle broker), a small message followed by one of exactly BatchBytes (both batches leave at once), Writer.BatchBytes left at its default with messages around 1 MiB."),
+                    "accepted messages must reach the broker without further input (async settle stratum; full-batch stratum with a 10 s timer). Further strata: a steady stream of appends with gaps shorter than BatchTimeout (no message may wait more than BatchTimeout + 700 ms for a healthy, idle broker), a small message followed by one of exactly BatchBytes (both batches leave at once), Writer.BatchBytes left at its default with messages around 1 MiB, Writers built by NewWriter(WriterConfig) (the configured BatchTimeout governs a lone message on an idle writer)."),
         level_note="time bounds: late-but-arrived is inconclusive, only never-arrived (3 s past BatchTimeout, idle broker) or a full batch waiting >3 s for a 10 s timer is a violation",
         rule=("case = writer scenario without broker faults, sizes drawn around BatchBytes/BatchSize, 1 in 15 calls with an invalid topic combination; strata by case index: async+settle, full batches with far timer, free. "
               "Non-trivial = at least one batch closed by size and one by timer, or an invalid call; distinct by (limits, mode, balancer, labels)."),
@@ -255,7 +255,7 @@ CHECKS = {
                     "each field takes every value of a hostile set (-1, -2, 0, 1, true+-1, exactly the remaining bytes, +1, +2, 512/513, 2^15-1, 2^16, 65537, 2^31-1, -2^31, and for varints 2^31, 2^32-1, 2^63-1, 2^63, 2^64-1, "
                     "10- and 11-byte over-long and an unterminated encoding); varints are re-spliced with the frame size prefix both adjusted and left as is; each mutated frame is supplied exactly (then EOF), followed by further responses, "
                     "cut to a prefix, and with the frame size raised to 2^31-1. Every frame is decoded by protocol.ReadResponse in a worker process (RLIMIT_AS 3 GiB, 64 MiB stacks, collector off while decoding, 2 s watchdog); "
-                    "a sample also goes through kafka.Transport.RoundTrip against an in-memory broker, and the raw SASL token length through RawExchange and a SASL Transport on the v0 handshake path. "
+                    "a sample also goes through kafka.Transport.RoundTrip against an in-memory broker, and the raw SASL token length through RawExchange and a SASL Transport on the v0 handshake path; consumer-protocol values (member metadata, assignments) with every nested length mutated go through protocol.Unmarshal (as Client.JoinGroup / SyncGroup call it) and, inside a well-formed DescribeGroups response, through Client.DescribeGroups, which has readers of its own. "
                     "Oracle: outcome error or decoded message; panic, no return, worker death (out of memory, stack overflow), more than 1 MiB + 1024 x bytes supplied allocated, or bytes consumed beyond the announced frame are violations. "
                     "Quick enumerates first/last/flexible-boundary/one seeded version per API, thorough all versions with two corpus seeds and more values; thorough adds 3 min of native fuzzing of ReadResponse(api, version, bytes) with the same oracle in-process."),
         level_note=("one field at a time (plus the frame size in the 'bigframe' supply mode): combinations of several hostile fields are left to the fuzzer; fields inside checksummed content (record bodies, v0/v1 key/value lengths, v2 record count) are outside the statement and only observed; "
@@ -366,7 +366,7 @@ CHECKS = {
         level_text=("Writer: generated writer scenarios (wsim) in which Close is issued while callers run, with calls parked at the schedule points writer.entered / writer.beforeBatch until Close has marked the writer closed, slow / failing brokers, retries and batch timers; "
                     "oracles: Close returns (a hang is confirmed by two identical goroutine dumps), every accepted message was sent and its Completion ran before Close returned, nothing is produced or completed after Close returned, WriteMessages after Close = io.ErrClosedPipe, no library goroutine is left. "
                     "Reader: plain and group readers with a call blocked in FetchMessage / CommitMessages, then Close or context end, against a normal / slow / fetch-stalling / heartbeat-stalling broker, also Close during a rebalance; oracles: bounded Close, LeaveGroup sent, no heartbeat / commit / fetch journalled after Close returned, "
-                    "io.EOF after Close, context error on cancel within 1 s, goroutine and connection census. ConsumerGroup used directly: 1-3 members in the usual Next/Start loop, Close during the join, inside a generation, after a forced rebalance or with an error pending, against coordinator errors and stalls; oracles: bounded Close, Next = ErrGroupClosed afterwards, no group request after Close, goroutine and connection census. Transport: round trips with a stalled response or a black-holed dial return the context's error when the context ends."),
+                    "io.EOF after Close, context error on cancel within 1 s, goroutine and connection census. ConsumerGroup used directly: 1-3 members in the usual Next/Start loop, Close during the join, inside a generation, after a forced rebalance or with an error pending, against coordinator errors and stalls (JoinGroup, Heartbeat, OffsetCommit or LeaveGroup never answered); oracles: bounded Close, Next = ErrGroupClosed afterwards, no group request after Close, goroutine and connection census. Transport: round trips with a stalled response or a black-holed dial return the context's error when the context ends."),
         level_note="interleavings are sampled (schedule points own the known windows, the rest is the Go scheduler); 'bounded' = watchdogs of several seconds, late-but-returned is inconclusive; goroutine census by stack dump",
         rule=("case = (scenario, schedule table, broker behaviour, blocked call, ending event); non-trivial = Close or context end overlapped a call in flight (a caller returned after Close started, a call was parked at a schedule point, or a call was blocked when the event fired); "
               "distinct by the case value."),
@@ -386,7 +386,7 @@ CHECKS = {
                     "Writer (sync/async, several balancers: WriteMessages, cancelled WriteMessages, Stats, Close), Reader (FetchMessage, ReadMessage, SetOffset, SetOffsetAt, Offset, Lag, ReadLag, Stats, Config, Close), "
                     "group Reader (plus CommitMessages, sync and interval commits), Conn (deadline setters, Offset, Seek in all modes, ReadOffsets, WriteMessages, WriteCompressedMessages, ReadBatch+ReadMessage, Read, ReadPartitions, Brokers, Controller, ApiVersions, Close), "
                     "Batch (Read, ReadMessage, Offset, HighWaterMark, Throttle, Partition, Err, Close), Client over one Transport (Metadata, ListOffsets, Produce, Fetch, CreateTopics, OffsetFetch, OffsetCommit, ListGroups, DescribeGroups, ApiVersions, ConsumerOffsets, CloseIdleConnections; short and long metadata TTL), "
-                    "every built-in balancer, every compression codec value. Environment events run inside the programs (brokers added / dropped, leaders moved, group rebalances), a plain sleep at a schedule point (writer/reader closeMarked) widens the window after Close marked the value closed without adding synchronisation, a Transport with a TLS configuration is shared by two cluster addresses, codecs and batches are closed twice, Batch.Read gets buffers shorter than the value. After each program the number of detector reports (runtime.RaceErrors) is compared and the new reports are parsed from the detector's log."),
+                    "every built-in balancer, every compression codec value. Environment events run inside the programs (brokers added / dropped, leaders moved, group rebalances), a plain sleep at a schedule point (writer/reader closeMarked) widens the window after Close marked the value closed without adding synchronisation, a Transport with a TLS configuration is shared by two cluster addresses, codecs and batches are closed twice, Batch.Read gets buffers shorter than the value, Seek is also called with SeekDontCheck, the codec value the threads share has not been used before they start. After each program the number of detector reports (runtime.RaceErrors) is compared and the new reports are parsed from the detector's log."),
         level_note="a race is only reported when the two accesses actually overlap in the sampled schedule; absence of reports is not absence of races. Races between harness goroutines only stop the run as an infrastructure error",
         rule=("case = (subject type, variant, records in the log, per-goroutine operation lists, repetitions); non-trivial = calls of two different goroutines on the shared value were in progress at the same time (measured); distinct by the case value."),
         assumptions=["the fake cluster and in-memory network are themselves race-free (a report without a library frame is treated as a harness fault, exit 2)",
